@@ -46,13 +46,20 @@ def _spec(rng, name, n_lo=2, n_hi=6):
     params = []
     for i, n in enumerate(names):
         typ = rng.choice(gen.SIMPLE_TYPES + ("Optional[int]", "Optional[str]", "Any", "Optional[Any]", "List[str]",
-                                             "Union[int, str]", "dict", "Optional[List[str]]"))
+                                             "Union[int, str]", "dict", "Optional[List[str]]",
+                                             # scalars the SQLAlchemy type table does not know, alone and inside a Union
+                                             "bytes", "Union[str, bytes]", "Decimal", "Union[int, Decimal]", "complex"))
         default = None
         if i >= len(names) - nd:
             default = {"int": "3", "float": "0.5", "str": "'a'", "bool": "True", "List[str]": "['a']", "dict": "{}",
                        "Union[int, str]": "4"}.get(typ, "None")
-        params.append({"name": n, "typ": typ, "default": default,
-                       "doc": " ".join(rng.choice(gen.WORDS) for _ in range(rng.randint(2, 5))).capitalize()})
+        doc = " ".join(rng.choice(gen.WORDS) for _ in range(rng.randint(2, 5))).capitalize()
+        if rng.random() < 0.2:
+            # prose in the shapes the type guesser reacts to, with synonyms that normalise to the same type twice
+            doc = rng.choice(("number or float or int", "a str or string or bytes", "either int, integer or float",
+                              "List of str or string", "one of `a`, `b` or `a`", "bool or boolean or int",
+                              "int or float or number.", "Tuple of int or integer"))
+        params.append({"name": n, "typ": typ, "default": default, "doc": doc})
     return {"name": name, "doc": "Do the %s thing." % name, "params": params,
             "returns": rng.choice((None, {"typ": "int", "doc": "The result"}))}
 
